@@ -3,8 +3,9 @@
    channel operation, and the individual channel operations; a lock that is
    held across channel sends (node.emit, the Subscribe replay goroutine, the
    wildcard read lock) is an explicit holder in the state.  Abstractions:
-   basicBus.lk (blk) is taken in its own step and released by the section
-   that follows (withNode, tryDropNode); metrics and logging are ignored; the 1 s
+   basicBus.lk protects only non-blocking sections since fix 8aeecd5 (withNode:
+   lookup, pending++; tryDropNode: pending / TryLock check), each one atomic
+   step; the blk field is kept but never held across steps; metrics and logging are ignored; the 1 s
    slow-consumer timer only logs and is not modelled.
    Ghost fields (hist, recv, expd) record history for the theorems and are
    never read by a step. *)
@@ -32,12 +33,14 @@ Inductive thr :=
 Inductive label :=
 | LStart (t : thr) | LRet (t : thr) (code : Z) | LReq (s : nat) | LRead (s : nat) (v : Z).
 
+(* npend: withNode callers that looked the node up under basicBus.lk and have not
+   locked it yet (node.pending) *)
 Record node := mkNode { nty : nat; holder : option thr; sinks : list nat;
-                        nlast : option Z; keep : bool; nem : nat }.
+                        nlast : option Z; keep : bool; nem : nat; npend : nat }.
 
 Record wildn := mkWild { wpend : option thr; rdrs : nat; wsinks : list nat; nsinks : nat }.
 
-Inductive sub_pc := S0 | SBus (i : nat) | SApp (i : nat) | SW1 | SW2 | SW3 | SRet | SDone.
+Inductive sub_pc := S0 | SBus (i : nat) | SApp (i : nat) (n : nat) | SW1 | SW2 | SW3 | SRet | SDone.
 Inductive close_pc := K0 | KRem (i : nat) | KBus (i : nat) | KDrop (i : nat) | KCloseCh
                     | KW1 | KW2 | KW3 | KW4 | KW5 | KRet | KDone.
 
@@ -86,10 +89,11 @@ Definition set_sub st s x := set_subs st (upd (subs st) s x).
 Definition set_emit st k x := set_emits st (upd (emits st) k x).
 Definition set_emitter st j x := set_emitters st (upd (emitters st) j x).
 
-Definition n_holder (n : node) h := mkNode (nty n) h (sinks n) (nlast n) (keep n) (nem n).
-Definition n_sinks (n : node) x := mkNode (nty n) (holder n) x (nlast n) (keep n) (nem n).
-Definition n_last (n : node) x := mkNode (nty n) (holder n) (sinks n) x (keep n) (nem n).
-Definition n_emitters (n : node) k e := mkNode (nty n) (holder n) (sinks n) (nlast n) k e.
+Definition n_holder (n : node) h := mkNode (nty n) h (sinks n) (nlast n) (keep n) (nem n) (npend n).
+Definition n_sinks (n : node) x := mkNode (nty n) (holder n) x (nlast n) (keep n) (nem n) (npend n).
+Definition n_last (n : node) x := mkNode (nty n) (holder n) (sinks n) x (keep n) (nem n) (npend n).
+Definition n_emitters (n : node) k e := mkNode (nty n) (holder n) (sinks n) (nlast n) k e (npend n).
+Definition n_pend (n : node) p := mkNode (nty n) (holder n) (sinks n) (nlast n) (keep n) (nem n) p.
 
 Definition c_chan (c : sub) b cl w d h r :=
   mkSub (styps c) (ccap c) b cl w d (spc c) (snodes c) (rpend c) (cpc c) h r (expd c) (hand c).
@@ -145,7 +149,7 @@ Definition lookup (st : state) (ty : nat) : state * nat :=
   match nth_error (bmap st) ty with
   | Some (Some n) => (st, n)
   | _ => let n := length (nodes st) in
-         (set_bmap (set_nodes st (nodes st ++ [mkNode ty None [] None false 0])) (upd (bmap st) ty (Some n)), n)
+         (set_bmap (set_nodes st (nodes st ++ [mkNode ty None [] None false 0 0])) (upd (bmap st) ty (Some n)), n)
   end.
 
 Definition lock_free (st : state) (n : nat) : bool :=
@@ -154,23 +158,30 @@ Definition lock_free (st : state) (n : nat) : bool :=
   | None => false
   end.
 
-(* tryDropNode after b.lk was taken: n.lk; check; delete; release b.lk *)
+(* the first half of withNode, one section under basicBus.lk (nothing in it
+   blocks): look the node up or create it, n.pending++ *)
+Definition with_node (st : state) (ty : nat) : option (state * nat) :=
+  let '(st1, n) := lookup st ty in
+  match nth_error (nodes st1) n with
+  | Some nd => Some (set_node st1 n (n_pend nd (S (npend nd))), n)
+  | None => None
+  end.
+
+(* tryDropNode, one section under basicBus.lk: pending > 0 or TryLock failure =
+   in use; never waits for n.lk *)
 Definition try_drop (st : state) (ty : nat) : option state :=
   match nth_error (bmap st) ty with
   | Some (Some n) =>
       match nth_error (nodes st) n with
       | Some nd => match holder nd with
-                   | Some _ => None
-                   | None => if Nat.eqb (nem nd) 0 && (match sinks nd with [] => true | _ => false end)
-                             then Some (set_blk (set_bmap st (upd (bmap st) ty None)) None) else Some (set_blk st None)
+                   | Some _ => Some st
+                   | None => if Nat.eqb (npend nd) 0 && Nat.eqb (nem nd) 0 && (match sinks nd with [] => true | _ => false end)
+                             then Some (set_bmap st (upd (bmap st) ty None)) else Some st
                    end
-      | None => Some (set_blk st None)
+      | None => Some st
       end
-  | _ => Some (set_blk st None)
+  | _ => Some st
   end.
-
-Definition take_blk (st : state) (t : thr) : option state :=
-  match blk st with None => Some (set_blk st (Some t)) | Some _ => None end.
 
 Definition tau (st : state) : option (option label * state) := Some (None, st).
 Definition vis (l : label) (st : state) : option (option label * state) := Some (Some l, st).
@@ -236,12 +247,15 @@ Definition step_emnew (st : state) (j : nat) : option (option label * state) :=
   | Some m =>
     match mnew m with
     | 0 => vis (LStart (TEmNew j)) (set_emitter st j (m_new m (mnode m) 1))
-    | 1 => otau (option_map (fun st' => set_emitter st' j (m_new m (mnode m) 2)) (take_blk st (TEmNew j)))   (* b.lk.Lock() *)
-    | 2 => let '(st1, n) := lookup st (mty m) in
-           match nth_error (nodes st1) n with
+    | 1 => match with_node st (mty m) with                                  (* b.lk: lookup, pending++ *)
+           | Some (st1, n) => tau (set_emitter st1 j (m_new m n 2))
+           | None => None
+           end
+    | 2 => let n := mnode m in                                             (* n.lk.Lock(); pending--; cb; Unlock *)
+           match nth_error (nodes st) n with
            | Some nd => match holder nd with
                         | Some _ => None
-                        | None => tau (set_emitter (set_node (set_blk st1 None) n (n_emitters nd (keep nd || mstateful m) (S (nem nd))))
+                        | None => tau (set_emitter (set_node st n (n_pend (n_emitters nd (keep nd || mstateful m) (S (nem nd))) (pred (npend nd))))
                                                    j (m_new m n 3))
                         end
            | None => None
@@ -265,7 +279,7 @@ Definition step_emclose (st : state) (j : nat) : option (option label * state) :
                                  (set_node st (mnode m) (n_emitters nd (keep nd) k)))
             | None => None
             end
-    | C3 => otau (option_map (go true C3d) (take_blk st (TEmClose j)))
+    | C3 => tau (go true C3d st)                                            (* b.lk.Lock() *)
     | C3d => otau (option_map (go true (C4 0)) (try_drop st (mty m)))
     | C4 c => vis (LRet (TEmClose j) c) (go true C5 st)
     | C5 => None
@@ -281,27 +295,29 @@ Definition step_sub (st : state) (s : nat) : option (option label * state) :=
     match spc c, styps c with
     | S0, Some tys => vis (LStart (TSub s)) (set_sub st s (c_spc c (match tys with [] => SRet | _ => SBus 0 end)))
     | S0, None => vis (LStart (TSub s)) (set_sub st s (c_spc c SW1))
-    | SBus i, _ => otau (option_map (fun st' => set_sub st' s (c_spc c (SApp i))) (take_blk st (TSub s)))   (* b.lk.Lock() *)
-    | SApp i, Some tys =>
-        (* withNode: n.lk.Lock(); n.sinks = append(n.sinks, sink); go func(){ defer n.lk.Unlock(); replay }() *)
+    | SBus i, Some tys =>                                   (* withNode, under b.lk: lookup, pending++ *)
         match nth_error tys i with
         | None => None
-        | Some ty =>
-            let '(st1, n) := lookup st ty in
-            match nth_error (nodes st1) n with
-            | Some nd =>
-                match holder nd with
-                | Some _ => None
-                | None =>
-                    let nd' := n_sinks (n_holder nd (Some (TReplay s i))) (sinks nd ++ [s]) in
-                    let c1 := c_app c (if Nat.ltb (S i) (length tys) then SBus (S i) else SRet) n in
-                    let c2 := match keep nd, nlast nd with
-                              | true, Some l => c_expd c1 (expd c1 ++ [(n, l)])
-                              | _, _ => c1 end in
-                    tau (set_sub (set_node (set_blk st1 None) n nd') s c2)
-                end
-            | None => None
+        | Some ty => match with_node st ty with
+                     | Some (st1, n) => tau (set_sub st1 s (c_spc c (SApp i n)))
+                     | None => None
+                     end
+        end
+    | SApp i n, Some tys =>
+        (* n.lk.Lock(); pending--; n.sinks = append(n.sinks, sink); go func(){ defer n.lk.Unlock(); replay }() *)
+        match nth_error (nodes st) n with
+        | Some nd =>
+            match holder nd with
+            | Some _ => None
+            | None =>
+                let nd' := n_pend (n_sinks (n_holder nd (Some (TReplay s i))) (sinks nd ++ [s])) (pred (npend nd)) in
+                let c1 := c_app c (if Nat.ltb (S i) (length tys) then SBus (S i) else SRet) n in
+                let c2 := match keep nd, nlast nd with
+                          | true, Some l => c_expd c1 (expd c1 ++ [(n, l)])
+                          | _, _ => c1 end in
+                tau (set_sub (set_node st n nd') s c2)
             end
+        | None => None
         end
     | SW1, _ => tau (set_sub (set_wild st (mkWild (wpend w) (rdrs w) (wsinks w) (S (nsinks w)))) s (c_spc c SW2))
     | SW2, _ => match wpend w with                                        (* w.Lock(): announce *)
@@ -369,7 +385,7 @@ Definition step_close (st : state) (s : nat) : option (option label * state) :=
             | None => None
             end
         end
-    | KBus i => otau (option_map (fun st' => set_sub st' s (c_cpc c (KDrop i))) (take_blk st (TClose s)))
+    | KBus i => tau (set_sub st s (c_cpc c (KDrop i)))                    (* b.lk.Lock() *)
     | KDrop i =>
         match nth_error (snodes c) i with
         | None => None
@@ -486,14 +502,15 @@ Definition item_eqb (a b : item) := Nat.eqb (fst a) (fst b) && Z.eqb (snd a) (sn
 
 Definition node_eqb (a b : node) : bool :=
   Nat.eqb (nty a) (nty b) && oeqb thr_eqb (holder a) (holder b) && leqb Nat.eqb (sinks a) (sinks b)
-  && oeqb Z.eqb (nlast a) (nlast b) && Bool.eqb (keep a) (keep b) && Nat.eqb (nem a) (nem b).
+  && oeqb Z.eqb (nlast a) (nlast b) && Bool.eqb (keep a) (keep b) && Nat.eqb (nem a) (nem b)
+  && Nat.eqb (npend a) (npend b).
 Definition wild_eqb (a b : wildn) : bool :=
   oeqb thr_eqb (wpend a) (wpend b) && Nat.eqb (rdrs a) (rdrs b) && leqb Nat.eqb (wsinks a) (wsinks b)
   && Nat.eqb (nsinks a) (nsinks b).
 Definition spc_eqb (a b : sub_pc) : bool :=
   match a, b with
   | S0, S0 | SW1, SW1 | SW2, SW2 | SW3, SW3 | SRet, SRet | SDone, SDone => true
-  | SApp i, SApp j | SBus i, SBus j => Nat.eqb i j | _, _ => false end.
+  | SBus i, SBus j => Nat.eqb i j | SApp i n, SApp j m => Nat.eqb i j && Nat.eqb n m | _, _ => false end.
 Definition cpc_eqb (a b : close_pc) : bool :=
   match a, b with
   | K0, K0 | KCloseCh, KCloseCh | KW1, KW1 | KW2, KW2 | KW3, KW3 | KW4, KW4 | KW5, KW5
